@@ -148,8 +148,10 @@ def c01(ctx):
     traces, meta = [], []
     rng = ctx.rng
     nvar = 2 if ctx.quick else None
+    with ThreadPoolExecutor(max_workers=8) as ex:
+        emitted = dict(zip(fams, ex.map(emit_cases, fams)))
     for f in fams:
-        cases = emit_cases(f)
+        cases = emitted[f]
         for ci, case in enumerate(cases):
             nv = cz.num_variants(case["ms"])
             vs = range(nv) if nvar is None else [rng.randrange(nv) for _ in range(nvar)]
@@ -673,7 +675,8 @@ _c01_core = c01
 
 def c01_with_replay(ctx):
     _c01_core(ctx)
-    for fam in ("chunks", "trunc", "pipeline"):
+    fams = ("chunks", "trunc", "pipeline") if not ctx.quick else ("chunks", "trunc")
+    for fam in fams:
         replay_behaviours(ctx, fam, 150 if ctx.quick else 1500)
 
 
